@@ -403,6 +403,10 @@ fn c19_check(_ctx: &Ctx, c: &C19Case) -> Report {
 pub struct C12Case {
   pub cc: ConcCase,
   pub kind: String,
+  /// the late subscriber (observer 1) is only judged by what the open known findings
+  /// K01 / K02 leave standing (see c12_check)
+  #[serde(default)]
+  pub weak_late: bool,
 }
 
 pub fn c12_strategy(ctx: &Ctx) -> BoxedStrategy<C12Case> {
@@ -430,7 +434,10 @@ pub fn c12_strategy(ctx: &Ctx) -> BoxedStrategy<C12Case> {
         HotKind::Replay => late_replay_ok,
         _ => true,
       };
-      if late && late_ok {
+      // while a known finding about the late hand-over is open the late subscriber is still
+      // generated, but judged by the weaker rules that the finding does not touch
+      let weak_late = late && !late_ok;
+      if late {
         threads.push(vec![Action::Subscribe(1)]);
       }
       let mut root = Node::Src(0, Src::Hot(0));
@@ -442,7 +449,7 @@ pub fn c12_strategy(ctx: &Ctx) -> BoxedStrategy<C12Case> {
         recorders: vec![vec![], vec![], vec![]],
         actions: pre_actions,
       };
-      C12Case { cc: ConcCase { case, threads, sched }, kind: format!("{:?}", kind) }
+      C12Case { cc: ConcCase { case, threads, sched }, kind: format!("{:?}", kind), weak_late }
     })
     .boxed()
 }
@@ -481,6 +488,38 @@ fn c12_check(_ctx: &Ctx, c: &C12Case) -> Report {
     let evs = ordered(&r.log.recs[k]);
     let got: Vec<i64> = items_of(&evs).iter().map(|p| p.as_i64()).collect();
     let unsub = r.log.unsub_marks[k].first().copied();
+    if k == 1 && c.weak_late {
+      // K01 / K02 open: a racing late subscriber may see a gap or a duplicate (Behavior) or
+      // duplicates / reordering (Replay). What must still hold: only pushed values arrive;
+      // Replay loses nothing; Behavior never goes back to an older value of one producer.
+      rep.classes.push("late-subscriber(weak rules: known finding open)".into());
+      rep.excluded = Some(if is_replay { "K02: late replay subscriber judged by weak rules".into() } else { "K01: late behavior subscriber judged by weak rules".into() });
+      for v in &got {
+        if *v != -1 && !pushes.iter().any(|p| p.2 == *v) {
+          rep.fail = fail(format!("late observer received {} which nobody pushed: {:?}", v, got));
+          return rep;
+        }
+      }
+      if is_replay {
+        for p in &pushes {
+          if !got.contains(&p.2) {
+            rep.fail = fail(format!("late replay observer never received {}: {:?}", p.2, got));
+            return rep;
+          }
+        }
+      }
+      if is_behavior {
+        for &pt in &producers {
+          let mine: Vec<i64> = pushes.iter().filter(|p| p.3 == pt).map(|p| p.2).collect();
+          let idx: Vec<usize> = got.iter().filter_map(|v| mine.iter().position(|m| m == v)).collect();
+          if idx.windows(2).any(|w| w[1] < w[0]) {
+            rep.fail = fail(format!("late behavior observer went back to an older value: {:?}", got));
+            return rep;
+          }
+        }
+      }
+      continue;
+    }
     // exactly-once
     let mut seen = std::collections::HashSet::new();
     for v in &got {
